@@ -112,10 +112,12 @@ def whStep (w : Impl.Wheel.Wheel) (line : String) (t : Tally) : Except String (I
       let T := Impl.Wheel.wheelTime (parseIntS now)
       let early := e.filter (fun n => w.deadline n ≥ T)
       let linkedIds := (w'.wheel.map (fun lv => lv.flatten)).flatten
-      let overdue := linkedIds.filter (fun n => (w'.deadline n) >>> 30 < T >>> 30)
+      -- (a node added with its deadline already behind the wheel's clock is scheduled for the tick of the Add: C13 exempts
+      --  entries written less than one tick before T, and the property is about deadlines MORE than a tick before T)
+      let overdue := linkedIds.filter (fun n => (w'.effective n) >>> 30 < T >>> 30)
       if !early.isEmpty then .error s!"C13/C07: DeleteExpired {now} expired nodes {early} whose deadline has not passed"
       else if !overdue.isEmpty then
-        .error s!"C13: after DeleteExpired {now} nodes {overdue} are still scheduled although their deadline lies more than one tick ({(overdue.map (fun n => T - w'.deadline n))} ns) in the past"
+        .error s!"C13: after DeleteExpired {now} nodes {overdue} are still scheduled although their deadlines ({overdue.map (fun n => T - w'.deadline n)} ns ago) and their Add lie in an earlier tick than the sweep"
       else check w' rest s!"DeleteExpired {now}" ((t.bump "sweeps").bump "expired" e.length)
   | _ => .error "unknown line"
 
@@ -249,8 +251,8 @@ def plStep (p : Impl.Policy.Policy) (line : String) (t : Tally) : Except String 
     let randsTok := ((res.getLast?.getD "").drop 6).toString
     let rands := (randsTok.splitOn ",").filterMap (·.toNat?)
     let p0 := { p with rands := rands, evicted := [] }
-    let mk (id key w : Nat) (st : Impl.Policy.NState) (p : Impl.Policy.Policy) := p.setNode { id := id, key := key, weight := w, st := st }
-    let retire (id : Nat) (p : Impl.Policy.Policy) := let n := p.node id; if n.st == .alive then p.setNode { n with st := .retired } else p
+    let mk (id key w : Nat) (st : Impl.Policy.NState) (p : Impl.Policy.Policy) := Impl.Policy.mkNode p id key w st
+    let retire (id : Nat) (p : Impl.Policy.Policy) := Impl.Policy.retire p id
     let r : Except String (Impl.Policy.Policy × String) := match toks with
       | ["setmax", m] => .ok (Impl.Policy.setMaximumSize p0 (BitVec.ofNat 64 m.toNat!), "setmax")
       | ["add", id, k, w] => .ok (Impl.Policy.add (mk id.toNat! k.toNat! w.toNat! .alive p0) id.toNat!, "add")
@@ -264,9 +266,18 @@ def plStep (p : Impl.Policy.Policy) (line : String) (t : Tally) : Except String 
       | ["evict"] => .ok (Impl.Policy.evictNodes p0, "evictNodes")
       | ["climb"] => .ok (Impl.Policy.climb p0, "climb")
       | _ => .error "unknown line"
+    -- the hypothesis of Proofs.PolicyLink.Reach, checked on the real trace: a node is introduced at most once
+    let intro : Option Nat := match toks with
+      | ["add", id, _, _] => some id.toNat!
+      | ["addretired", id, _, _] => some id.toNat!
+      | ["update", id, _, _, _] => some id.toNat!
+      | _ => none
+    let twice := match intro with | some id => p.introduced.contains id | none => false
     match r with
     | .error e => .error e
     | .ok (p', what) =>
+      if twice then .error s!"{what} {toks}: the trace introduces node {intro.getD 0} twice (outside the hypothesis of the C05 theorems)" else
+      let p' := match intro with | some id => { p' with introduced := id :: p'.introduced } | none => p'
       let got := Impl.Policy.dump p' ++ " rands=" ++ randsTok
       let want := " ".intercalate res
       let t := (t.bump what).bump "evictions" p'.evicted.length
@@ -393,7 +404,19 @@ structure CfSt where
   outcome : String := ""
   base : Nat := 0
   loads : List (Nat × Nat × Nat) := []        -- key, enter, exit
+  calls : List (Nat × Nat) := []              -- start, end of every caller of the round
   deriving Inhabited
+
+/-- C08 allows a second, NON-overlapping load of a key whose first load succeeded only for a caller that may have missed
+    the cache before the first result was stored: a caller spanning the second load that started before the end of some
+    caller spanning the first (the leader of the first load, who stores the value, is one of those). -/
+def cfRedundant (loads : List (Nat × Nat × Nat)) (calls : List (Nat × Nat)) : Option (Nat × Nat × Nat) :=
+  loads.findSome? (fun (k, en2, ex2) =>
+    match loads.find? (fun (k', en1, ex1) => k' == k && ex1 < en2 && en1 != en2) with
+    | none => none
+    | some (_, en1, ex1) =>
+      let storeBound := ((calls.filter (fun (s, e) => s < en1 && ex1 < e)).map (·.2)).foldl max 0
+      if calls.any (fun (s, e) => s < en2 && ex2 < e && s < storeBound) then none else some (k, en1, en2))
 
 def cfStep (st : CfSt) (line : String) (t : Tally) : Except String (CfSt × Tally) :=
   let ws := splitWs line
@@ -407,10 +430,8 @@ def cfStep (st : CfSt) (line : String) (t : Tally) : Except String (CfSt × Tall
     | some (_, en', ex') => .error s!"C08: two loader executions for key {k} overlap in time: [{en'}, {ex'}] and [{en}, {ex}]"
     | none =>
       let t := t.bump "loader_invocations"
-      -- a successful load is cached: one execution serves every caller of the round
-      if st.outcome == "ok" && st.loads.any (fun (k', en', _) => k' == k && en' != en) then
-        .error s!"C08: key {k} was loaded more than once although the first load succeeded and nothing removed the entry"
-      else .ok ({ st with loads := (k, en, ex) :: st.loads }, t)
+      let t := if st.loads.any (fun (k', en', _) => k' == k && en' != en) then t.bump "sequential_reloads" else t
+      .ok ({ st with loads := (k, en, ex) :: st.loads }, t)
   | "call" :: _w :: start :: end_ :: res :: err :: [] =>
     let t := t.bump "callers"
     -- the caller returns the outcome of the round's loader
@@ -418,7 +439,7 @@ def cfStep (st : CfSt) (line : String) (t : Tally) : Except String (CfSt × Tall
     let parts := res.splitOn ","
     let kind := parts.headD ""
     let kvs := (parts.drop 1).filterMap (fun p => match p.splitOn "=" with | [a, b] => some (a.toNat!, b.toNat!) | _ => none)
-    let _ := (start, end_)
+    let st := { st with calls := (start.toNat!, end_.toNat!) :: st.calls }
     if st.outcome == "pan" then
       if res == "panic" || err == "panic" || err == "other" || err == "nil" then .ok (st, t) else .error s!"C08: caller got {res} {err} from a panicking loader"
     else if st.outcome == "ok" then
@@ -437,7 +458,9 @@ def cfStep (st : CfSt) (line : String) (t : Tally) : Except String (CfSt × Tall
   | "quiescent" :: rest =>
     if natOf rest "hangs" != 0 then .error "C08: a caller never returned: it waits for an in-flight load that nobody completes"
     else if natOf rest "inflight" != 0 then .error s!"C08: {natOf rest "inflight"} in-flight record(s) left behind after every call returned"
-    else .ok (st, t.bump "quiescent_points")
+    else match (if st.outcome == "ok" then cfRedundant st.loads st.calls else none) with
+      | some (k, en1, en2) => .error s!"C08: key {k} was loaded again (loader entered at {en2}) after its load entered at {en1} had succeeded and been stored, by a caller that started after that — the result was not retained"
+      | none => .ok (st, t.bump "quiescent_points")
   | _ => .error "unknown line"
 
 /-- generic script loop: `step` per line, first failure of a script is reported, rest of the script skipped -/
